@@ -1,17 +1,21 @@
 """C05 — Flux variability analysis reports the true flux ranges."""
 from contracts import c15_dictlist, c04_status, c05_fva as C  # noqa
+from contracts import c09_pfba as CP
+from pyvc.contract import chain_hooks
 from props._generic import run_property, replay_with_driver
 
 LEVEL = "other"
-KEYS = ["_fva_step", "check_solver_status", "Model.slim_optimize"]
+KEYS = ["_fva_step", "check_solver_status", "Model.slim_optimize", "add_pfba"]
 
 
 def run(rep):
-    run_property(rep, KEYS, hooks=C.HOOKS, explanation=(
+    run_property(rep, KEYS, hooks=chain_hooks(C.HOOKS, CP.HOOKS), lemmas=CP.lemmas, explanation=(
         "Deductive (kernel): _fva_step is proved, for every model and reaction id, to solve the current LP with +1*forward -1*reverse of "
         "the requested reaction added to the objective, to return (requested id, solver objective value), and to leave EVERY "
         "objective coefficient as at entry on normal return (given both were 0 at entry, which the sweep's prelude establishes) - "
-        "the frame that makes FVA steps independent of each other; unknown ids raise KeyError with nothing changed. The prelude's "
+        "the frame that makes FVA steps independent of each other; unknown ids raise KeyError with nothing changed; add_pfba, from which "
+        "the total-flux cap of pfba_factor is derived, is proved to put coefficient 1 on the forward AND reverse variable of EVERY "
+        "reaction (C09 kernel + lemmas: the objective is the total absolute flux). The prelude's "
         "constraints (fraction of optimum, pfba_factor), the pool fan-out, the loopless post-processing and GLPK's optimality are "
         "NOT proved: bounded driver (ranges against exact rational min/max of the documented problem; loopless against brute force)."),
         trusted=["optlang Objective.set_linear_coefficients (assumed contract)", "GLPK optimize (assumed, monitored)",
